@@ -61,6 +61,7 @@ import (
 )
 
 var debugPanics = os.Getenv("SYMGO_DEBUG_PANIC") != ""
+var traceCalls = os.Getenv("SYMGO_TRACE_CALLS")
 var lastPanicSeen interface{}
 
 type continuation int
@@ -520,6 +521,9 @@ func callSSA(i *interpreter, caller *frame, callpos token.Pos, fn *ssa.Function,
 			suffix = ", resuming " + caller.fn.String() + loc(fset, callpos)
 		}
 		defer fmt.Fprintf(os.Stderr, "Leaving %s%s.\n", fn, suffix)
+	}
+	if traceCalls != "" && strings.Contains(fn.String(), traceCalls) {
+		fmt.Fprintf(os.Stderr, "CALL %s\n", fn)
 	}
 	if X.Summaries != nil {
 		if rep, ok := X.Summaries[fn]; ok {
